@@ -31,6 +31,14 @@ POLLUTERS = {
     'display-redefine-attempt': '令显示设为1\n',
     'huge-heap': '令L设为【】\n令I设为0\n每当I < 200：\n    I = I + 1\n    以L（后增：【I，I】）\n',
     'syntax-error': '令令令\n',
+    # in-place mutators applied to every kind of value the RUNTIME hands to a program (a value it might keep and hand out again)
+    'mutate-loop-index': '以序、项遍历【5，6，7】：\n    以序（自增：100）\n',
+    'mutate-loop-item': '以项遍历【5，6，7】：\n    以项（自增：100）\n',
+    'mutate-dict-loop-key': '以键、值遍历【“1*^3” = 1，b = 2】：\n    如果键 == “1*^3”：\n        令N设为以键（转换数值）\n',
+    'mutate-number-literal': '如何取？\n    输出 3\n令X设为（取）\n以X（自增：5）\n令Y设为7\n以Y（自减：7）\n',
+    'mutate-text-literal': '如何文？\n    输出 “1*^3”\n令T设为（文）\n令N设为以T（转换数值）\n',
+    'mutate-length-and-chars': '令L设为【1，2】之长度\n以L（自增：9）\n令C设为“ab”之字符组\n以C（后增：“z”）\n令K设为【a = 1】之所有索引\n以K（后增：“z”）\n',
+    'mutate-list-literal-in-method': '如何列？\n    输出【1，2】\n令A设为（列）\n以A（后增：3）\n',
 }
 PROBES = {
     'exception-content': '如何试？\n    抛出异常：“真话”！\n    拦截异常：\n        输出 其内容\n输出（试）\n',
@@ -42,6 +50,18 @@ PROBES = {
     'error-chain': '如何深？\n    输出 1 / 0\n（深）\n',
     'this-at-top': '输出 其名\n',
     'truth': '输出【真，假，空】\n',
+    'loop-indices': '令和设为0\n令出设为【】\n以序、项遍历【5，6，7】：\n    和 = 和 + 序\n    以出（后增：项）\n输出【和，出】\n',
+    'dict-loop-keys': '令出设为【】\n以键、值遍历【“1*^3” = 1，b = 2】：\n    以出（后增：键）\n输出 出\n',
+    'literals': '如何取？\n    输出 3\n如何文？\n    输出 “1*^3”\n如何列？\n    输出【1，2】\n输出【（取），7，（文），（列），【1，2】之长度，“ab”之字符组，【a = 1】之所有索引】\n',
+}
+# programs that change what they read: executed repeatedly from ONE loaded program object, every execution starts afresh
+REEXEC = {
+    'bump-predefined-number': '以数值（自增：5）\n输出 数值\n',
+    'redefine-exception-ctor-then-throw': '如何新建异常？\n    输入话\n    其内容 = “劫持”\n如何试？\n    抛出异常：“真话”！\n    拦截异常：\n        输出 其内容\n输出（试）\n',
+    'grow-list-literal': '令L设为【1】\n以L（后增：2）\n输出 L\n',
+    'declare-and-count': '令N设为0\n每当N < 3：\n    N = N + 1\n输出 N\n',
+    'bump-loop-index': '令和设为0\n以序、项遍历【5，6，7】：\n    以序（自增：10）\n    和 = 和 + 序\n输出 和\n',
+    'object-default': '定义狗：\n    其名设为【1】\n令D设为（新建狗）\n以D之名（后增：2）\n输出 D之名\n',
 }
 
 
@@ -70,6 +90,19 @@ def run(ctx):
         ctx.nontriv(line)
     ctx.sample({'sequence': seqs[0] + ['exception-content'], 'line': lines[0][:200], 'go': go[0], 'fresh': fresh[qnames[0]]})
     ctx.streams.append({'stream': 'iso', 'cases': len(lines), 'polluters': len(pnames), 'probes': len(qnames)})
+    # ---- reexec: one loaded program executed several times -----------------------------------------------
+    rnames = list(REEXEC)
+    rfresh = ctx.run_go(['freshrun ' + cps(REEXEC[r]) for r in rnames], parallel=False)
+    rlines = ['reexec 3 ' + cps(REEXEC[r]) for r in rnames]
+    rgo = ctx.run_go(rlines, parallel=False)
+    for r, line, g, fr in zip(rnames, rlines, rgo, rfresh):
+        ctx.evaluations += 1
+        ctx.count('reexec:' + r)
+        want = ' ;; '.join([fr] * 3)
+        if g != want:
+            ctx.violation('reexec', line, g, want + '   (the program %s alone in a fresh process, three times)' % r)
+        ctx.nontriv(line)
+    ctx.streams.append({'stream': 'reexec', 'cases': len(rlines)})
     # the spec side of iso is the probe alone on the model evaluator from its pristine initial state
     from props import progs
     # (model correspondence of the probes themselves)
